@@ -384,6 +384,19 @@ def check_C04(replay=None):
         # frequent manifest roll-overs in half of them, so that fragments chain many times
         for d in docs[::2]:
             d["opts"]["mani-log-rollover-ratio"] = rng.choice([0, 1])
+    # concurrent histories: several threads ingesting into a stalling tree against running compaction threads;
+    # afterwards every key must read back and the verifier must accept the history (Trace_Stall End guards)
+    if not replay or "doc" in body and "ingesters" in body["doc"]:
+        import p_stall
+        if replay:
+            idocs = [body["doc"]]
+        else:
+            idocs = [{"ingesters": ing, "compactors": comp, "iters": 50, "nkeys": nk, "pad": 0, "yield_seed": rng.randrange(1, 1 << 30), "timeout": 90,
+                      "opts": {"l0-write-stall-threshold-files": stall, "l0-mandatory-compaction-threshold-files": 1, "max-compaction-files": 16}}
+                     for (ing, comp, nk, stall) in [(2, 1, 3, 2), (4, 2, 2, 2), (3, 1, 1000000, 3)] + ([(rng.choice([2, 4]), rng.choice([1, 3]), rng.choice([2, 8]), rng.choice([2, 3])) for _ in range(12)] if thorough else [])]
+        p_stall.run_ingest_stress(out, wd, idocs, prop, "c4ing")
+        if replay:
+            return out.finish("model_checking", [])
     failures = run_and_validate(out, wd, docs, "acct", devs, prop)
     for f in failures:
         path = replay or vlib.save_replay(prop, "store-history", {"doc": f["doc"], "matched": f["matched"], "guard": f.get("guard"),
